@@ -75,9 +75,19 @@ def cfgs_random(prop, tier, rng):
                  max_hats=(24 if tier == 'quick' else 80) if prop == 'C04' else 6)
         if prop == 'C06':
             c['margin'] = [0.0, 1.0, 0.0, 0.1][i] if i < 4 else rng.choice([None, None, 0.5, 1.0, 0.75, 0.25, 0.0, 0.1])
-        if rng.random() < 0.3:
-            c['a'] = [-3.0 + d for d in range(D)]
-            c['b'] = [6.0 + 2 * d for d in range(D)]
+        if rng.random() < 0.4:
+            # non-cubic domains; in the dyadic boxes [0, 2^d] and in [-1, 1] x [0, 1] x ... interior grid coordinates of one dimension coincide
+            # with the bounds of another dimension (coordinates compared with the wrong dimension's bounds would show there)
+            dom = rng.choice(['wide', 'wide', 'dyadic', 'dyadic', 'mixed'])
+            if dom == 'wide':
+                c['a'] = [-3.0 + d for d in range(D)]
+                c['b'] = [6.0 + 2 * d for d in range(D)]
+            elif dom == 'dyadic':
+                c['a'] = [0.0] * D
+                c['b'] = [float(2 ** d) for d in range(D)]
+            else:
+                c['a'] = [-1.0] + [0.0] * (D - 1)
+                c['b'] = [1.0] * D
             c['int_domain'] = rng.random() < 0.5
         if prop in ('C04', 'C03') and rng.random() < 0.15:
             # boundary points off with the modified basis: every linear function has to stay exact
